@@ -33,6 +33,7 @@ type ConcCase struct {
 	Seg   int        `json:"seg"`
 	File  bool       `json:"file,omitempty"` // shared view is file-backed (every storage read is a yield point)
 	Tasks [][]ROp    `json:"tasks"`
+	Reuse []bool     `json:"reuse,omitempty"` // per task: keep one postings list/iterator and pass it as prealloc
 	Merge *ConcMerge `json:"merge,omitempty"`
 }
 
@@ -57,6 +58,7 @@ func genConcCase(t *rapid.T, prop string) *Case {
 			prog = append(prog, genROp(t, true))
 		}
 		cc.Tasks = append(cc.Tasks, prog)
+		cc.Reuse = append(cc.Reuse, rapid.IntRange(0, 1).Draw(t, "reuse") == 1)
 	}
 	if rapid.IntRange(0, 2).Draw(t, "withmerge") == 0 {
 		m := &ConcMerge{Drop: genDrop(t), Mode: rapid.SampledFrom(chunkModes).Draw(t, "mode"), Public: rapid.IntRange(0, 1).Draw(t, "public") == 0,
@@ -148,12 +150,13 @@ func runConcCase(c *Case, env *Env) *Result {
 				nested++
 			}
 		}
+		hooks := &ropHooks{sched: sched, reuse: ti < len(cc.Reuse) && cc.Reuse[ti]}
 		bodies = append(bodies, func(int) {
 			out := outs[ti]
 			for oi := range cc.Tasks[ti] {
 				var r *RRes
 				var err error
-				pi := Guard(func() { r, err = ExecROp(ws, shared, &cc.Tasks[ti][oi], &ropHooks{sched: sched}) })
+				pi := Guard(func() { r, err = ExecROp(ws, shared, &cc.Tasks[ti][oi], hooks) })
 				out.results = append(out.results, r)
 				out.errs = append(out.errs, err)
 				out.panics = append(out.panics, pi)
